@@ -281,10 +281,14 @@ fn run(case: &Value, stats: &mut Stats) -> RunResult<()> {
                 let before = snapshot_files(&dir);
                 let result: std::sync::Arc<std::sync::Mutex<Option<Attempt>>> = std::sync::Arc::new(std::sync::Mutex::new(None));
                 let ctl: &'static crate::ctl::Ctl = &crate::hooks::CTL;
-                let strategy = match us(op, "strategy") % 3 {
+                let strategy = match us(op, "strategy") % 5 {
                     0 => crate::ctl::Strategy::Uniform,
                     1 => crate::ctl::Strategy::Sticky(60),
-                    _ => crate::ctl::Strategy::Sticky(90),
+                    2 => crate::ctl::Strategy::Sticky(90),
+                    // the opener frozen at its pause point (between looking at the file and locking it)
+                    // while the holder does everything it still has to do
+                    3 => crate::ctl::Strategy::HoldAtPause(100),
+                    _ => crate::ctl::Strategy::HoldAtPause(70),
                 };
                 rawdb::verif::set_pause_on_lock_drop(true);
                 ctl.begin(
@@ -453,7 +457,7 @@ impl Check for C18Check {
                 9 => json!({"op":"drop_all","min_len":*rng.pick(&min_lens)}),
                 10 | 11 => json!({"op":"try_thread","min_len":*rng.pick(&min_lens)}),
                 12 => json!({"op":"try_child","min_len":*rng.pick(&min_lens)}),
-                _ if rng.chance(1, 2) => json!({"op":"race_drop_open","min_len":*rng.pick(&min_lens),"seed":rng.next(),"strategy":rng.below(3),
+                _ if rng.chance(1, 2) => json!({"op":"race_drop_open","min_len":*rng.pick(&min_lens),"seed":rng.next(),"strategy":rng.below(5),
                     "grow":*rng.pick(&[0usize, 0, 3_000_000, 6_000_000])}),
                 _ => json!({"op":"open","min_len":*rng.pick(&min_lens)}),
             };
